@@ -33,7 +33,8 @@ Theorem method_is_prune_then_core c s x o :
 Proof.
   intros Hp Hb. destruct x; simpl in Hp; try discriminate; cbn [step op_now] in *.
   - unfold step_enqueue in *. cbn [app] in *. rewrite prune_no_prune.
-    destruct (assign_ids [e] (o_genids o)); [reflexivity | exfalso; apply Hb; reflexivity].
+    destruct (assign_ids [e] (o_genids o)); [|exfalso; apply Hb; reflexivity].
+    cbn [c_max_depth c_drop_oldest no_prune]. rewrite sql_make_room_no_prune. reflexivity.
   - destruct es as [|e0 es0]; [discriminate|]. unfold step_enqueue in *. rewrite prune_no_prune.
     destruct (assign_ids (e0 :: es0) (o_genids o)); [|exfalso; apply Hb; reflexivity].
     cbn [c_max_depth c_drop_oldest no_prune]. rewrite sql_make_room_no_prune. reflexivity.
